@@ -170,6 +170,9 @@ fn cmd_run(args: &Args) {
 
     let exclude: Vec<u64> = args.opts.get("exclude").map(|s| s.split(',').filter_map(|x| x.parse().ok()).collect()).unwrap_or_default();
     let extra_violations: usize = args.opts.get("extra-violations").and_then(|s| s.parse().ok()).unwrap_or(0);
+    if let Some(w) = args.opts.get("watchdog-secs").and_then(|s| s.parse::<u64>().ok()) {
+        runner::WATCHDOG_OVERRIDE.store(w, std::sync::atomic::Ordering::Relaxed);
+    }
     let out = run_batch(prop, tier, seed, runs, threads, max_secs, &exclude);
 
     let mut hidden_state_note: Option<String> = None;
@@ -353,9 +356,17 @@ fn supervise_run(args: &Args) {
     let seed = seed_from(args);
     let mut exclude: Vec<u64> = vec![];
     let mut crash_violations = 0usize;
-    for _round in 0..4 {
+    let mut hung = false;
+    // the check rewrites its evidence on every run: never leave a stale file behind
+    let evidence_path: PathBuf = args.opts.get("evidence").map(PathBuf::from).unwrap_or_else(|| report::verif_dir().join("evidence").join(format!("{}.json", prop.name())));
+    let _ = std::fs::remove_file(&evidence_path);
+    for _round in 0..12 {
         let mut cmd = std::process::Command::new(self_exe());
         cmd.args(raw_args()).arg("--worker").arg("1").arg("--seed").arg(seed.to_string());
+        if hung {
+            // the library is known to hang on this tree: do not wait a minute for every further run that does
+            cmd.arg("--watchdog-secs").arg("5");
+        }
         if !exclude.is_empty() {
             cmd.arg("--exclude").arg(exclude.iter().map(|x| x.to_string()).collect::<Vec<_>>().join(","));
             cmd.arg("--extra-violations").arg(crash_violations.to_string());
@@ -370,6 +381,19 @@ fn supervise_run(args: &Args) {
         };
         print!("{}", String::from_utf8_lossy(&out.stdout));
         let err = String::from_utf8_lossy(&out.stderr).to_string();
+        if out.status.code() == Some(71) {
+            // a run hung (reported by the worker's watchdog): resume without it
+            if let Some(idx) = err.lines().find_map(|l| l.strip_prefix("HANG run=")).and_then(|x| x.trim().parse::<u64>().ok()) {
+                if !exclude.contains(&idx) {
+                    exclude.push(idx);
+                    crash_violations += 1;
+                    hung = true;
+                    continue;
+                }
+            }
+            write_minimal_evidence(prop, tier, seed, &exclude, &evidence_path);
+            std::process::exit(1);
+        }
         let crashed = out.status.code() == Some(70) || out.status.code().is_none();
         if !crashed {
             eprint!("{}", err.lines().filter(|l| !l.starts_with("FOUND run=")).map(|l| format!("{}\n", l)).collect::<String>());
@@ -427,7 +451,35 @@ fn supervise_run(args: &Args) {
             std::process::exit(2);
         }
     }
+    write_minimal_evidence(prop, tier, seed, &exclude, &evidence_path);
     std::process::exit(1);
+}
+
+/// Evidence for a batch that could not be completed because run after run crashed or hung.
+fn write_minimal_evidence(prop: Prop, tier: Tier, seed: u64, bad_runs: &[u64], path: &PathBuf) {
+    let samples: Vec<Value> = bad_runs.iter().take(4).map(|&i| generate(prop, seed, i, tier).to_json()).collect();
+    let distinct: std::collections::BTreeSet<String> = bad_runs.iter().map(|&i| generate(prop, seed, i, tier).to_json().to_string()).collect();
+    let ev = json!({
+        "property_id": prop.name(),
+        "tier": if tier == Tier::Quick { "quick" } else { "thorough" },
+        "seed": seed,
+        "level": "exploration",
+        "coverage": {
+            "evaluations": bad_runs.len(),
+            "distinct_nontrivial": distinct.len(),
+            "rule": "the batch was abandoned: every listed run crashed or hung the worker process; evaluations counts only those runs (each re-executed alone in a fresh process), distinct_nontrivial the distinct scenarios among them",
+            "samples": samples,
+            "runs_that_crashed_or_hung": bad_runs,
+            "exhaustive": false
+        },
+        "assumptions": ["see MANIFEST.json level_note"],
+        "wall_s": 0.0,
+        "violations": bad_runs.len(),
+    });
+    if let Some(dir) = path.parent() {
+        let _ = std::fs::create_dir_all(dir);
+    }
+    let _ = std::fs::write(path, serde_json::to_string_pretty(&ev).unwrap());
 }
 
 /// one run in this process: write the replay file first, then execute
